@@ -121,7 +121,19 @@ proof fn lemma_rooted_update_open(s: Seq<Event>, i: int, e: Event)
     }
 }
 
+// ---------- C20: where syntax errors point ----------
+// the empty range at the end of the text: `TextRange::empty(TextSize::from(src.len() as u32))` (uninterpreted here; the Kani
+// harness error_contract checks that Parser::error produces exactly this value at end of input)
+uninterp spec fn eof_range(src: Seq<char>) -> TextRange;
+// an error range is the whole range of one of the parser's tokens, or the empty range at the end of the text
+spec fn err_range_ok(tokens: Seq<LexToken>, src: Seq<char>, r: TextRange) -> bool {
+    (exists|i: int| 0 <= i < tokens.len() && (#[trigger] tokens[i]).range == r) || r == eof_range(src)
+}
+
 impl<'i> Parser<'i> {
+    spec fn errs_ok(&self) -> bool {
+        forall|j: int| 0 <= j < self.errors@.len() ==> err_range_ok(self.tokens@, self.src@, (#[trigger] self.errors@[j]).range)
+    }
     spec fn kind_at(&self, i: int) -> SyntaxKind {
         if 0 <= i < self.tokens@.len() { self.tokens@[i].kind } else { SyntaxKind::EOF }
     }
@@ -172,6 +184,7 @@ spec fn extd0(o: Parser, n: Parser, dd: int) -> bool {
     &&& n.pos >= o.pos
     &&& n.events@.len() >= o.events@.len()
     &&& forall|i: int| is_open(o.events@, i) ==> #[trigger] is_open(n.events@, i)
+    &&& (o.errs_ok() ==> n.errs_ok())   // C20: nobody but Parser::error records errors
 }
 
 // ---------- token sets: bit-level view ----------
@@ -217,7 +230,7 @@ proof fn lemma_tokenset_step(res: u128, kinds: Seq<SyntaxKind>, i: int)
 spec const FUEL_U: int = 9;
 // everything but the fuel is untouched (contract of the look-ahead methods nth / at / at_any)
 spec fn same_but_fuel(o: Parser, n: Parser) -> bool {
-    n.tokens@ == o.tokens@ && n.tokens_raw@ == o.tokens_raw@ && n.src@ == o.src@ && n.pos == o.pos && n.depth == o.depth && n.events@ == o.events@
+    n.tokens@ == o.tokens@ && n.tokens_raw@ == o.tokens_raw@ && n.src@ == o.src@ && n.pos == o.pos && n.depth == o.depth && n.events@ == o.events@ && n.errors@ == o.errors@
 }
 // fuel accounting of a grammar function: nothing consumed => at most `pre` look-aheads were spent;
 // otherwise the fuel was reset by the last bump and at most a + FUEL_U * (levels of nesting left) were spent since
